@@ -153,9 +153,9 @@ structure Quirks where
   i64Ints : Bool := false
   /-- a type-system document that ends with a dangling string panics -/
   panicDanglingString : Bool := false
-  /-- `directive d on …` without `@` -/
+  /-- `directive d on …` without `@` (the compiler's parser before the repair dfabac6) -/
   missingAt : Bool := false
-  /-- `SCHEMA` is not a directive location -/
+  /-- `SCHEMA` is not a directive location (the compiler's parser before the repair a28cef5) -/
   noSchemaLocation : Bool := false
   /-- `union U` must be followed by `=` -/
   unionNeedsMembers : Bool := false
@@ -176,7 +176,6 @@ def Quirks.iso : Quirks :=
     interfaceImplements := true, repeatable := true,
     varDefLocation := Gen.GqlTokens.isoDirectiveLocations.contains (cps "VARIABLE_DEFINITION"),
     emptyObjectExtension := true, emptyDocument := true, i64Ints := true,
-    missingAt := true,
     noSchemaLocation := !(Gen.GqlTokens.isoDirectiveLocations.contains (cps "SCHEMA")),
     unionNeedsMembers := true, noBlockValues := true }
 
